@@ -279,6 +279,7 @@ func (e *Engine) extend(g GKey, opt LiveOpt, keepLog bool) (ok bool, why string,
 			}
 		}
 	}
+	stopped := ""
 	step := func(node int, ev Event, raw *interfaces.ConsensusRawMessage) {
 		n := nodes[node]
 		var info ref.Info
@@ -287,6 +288,9 @@ func (e *Engine) extend(g GKey, opt LiveOpt, keepLog bool) (ok bool, why string,
 		}
 		obs := n.Step(ev, raw, info, nil)
 		steps++
+		if n.Dead != "" && stopped == "" {
+			stopped = fmt.Sprintf("correct member n%d stopped during the timely schedule: %s", node, n.Dead)
+		}
 		for _, o := range obs.Outs {
 			if o.Info.Hdr.Height != 1 {
 				continue
@@ -307,6 +311,9 @@ func (e *Engine) extend(g GKey, opt LiveOpt, keepLog bool) (ok bool, why string,
 		}
 	}
 	for iter := 0; iter < 20000; iter++ {
+		if stopped != "" { // a correct member that panics or wedges is not "crashed": the library did it
+			return false, stopped, steps, log, maxView
+		}
 		// success?
 		allDone := true
 		anyCommit := false
